@@ -34,7 +34,7 @@ Piece = namedtuple("Piece", "kind src escapes ctx text")
 Event = namedtuple("Event", "kind what value node fn extra")
 
 MAX_DEPTH = 14
-LOOP_ROUNDS = 3
+LOOP_ROUNDS = 2
 MAX_PIECES = 60
 
 MUTATORS = {"append", "extend", "insert", "remove", "pop", "clear", "sort", "reverse", "update", "setdefault",
@@ -252,6 +252,7 @@ class Interp:
         self.unresolved = []
         self.visited_functions = set()
         self._oid = 0
+        self.memo = {}
         self.global_cache = {}
         self.lib = lib or {}
 
@@ -271,9 +272,13 @@ class Interp:
         if len(self.stack) >= MAX_DEPTH:
             self.counters["depth_cutoffs"] += 1
             return self._havoc(args, kwargs, selfv)
-        if sum(1 for f in self.stack if f.fn is fn) >= 2:
+        if sum(1 for f in self.stack if f.fn is fn) >= 1:
             self.counters["recursion_cutoffs"] += 1
             return self._havoc(args, kwargs, selfv)
+        mkey = self._memo_key(fn, args, kwargs, selfv, state)
+        if mkey in self.memo:
+            self.counters["memo_hits"] = self.counters.get("memo_hits", 0) + 1
+            return self.memo[mkey]
         self.counters["calls_inlined"] += 1
         self.visited_functions.add(key)
         fr = Frame(fn, fn.module, fn.cls)
@@ -334,9 +339,33 @@ class Interp:
                 for h in hs[1:]:
                     merged = merged.join_with(State({}, h))
                 state.heap = merged.heap
+            if len(self.memo) < 20000:
+                self.memo[mkey] = ret
             return ret
         finally:
             self.stack.pop()
+
+    def _sig(self, v, depth=0):
+        if v is None:
+            return None
+        base = (v.kinds, v.regions, v.cls.name if v.cls is not None else None, v.oid, v.tag, v.setlike,
+                frozenset((p.kind, p.src, p.escapes, p.ctx) for p in v.pieces),
+                v.const if isinstance(v.const, (str, int, bool, float)) else None)
+        if depth >= 2:
+            return base
+        f = tuple(sorted((str(k), self._sig(x, depth + 1)) for k, x in (v.fields or {}).items())) if v.fields else None
+        return base + (self._sig(v.elem, depth + 1), f)
+
+    def _memo_key(self, fn, args, kwargs, selfv, state):
+        stale = ()
+        if "self" in state.heap:
+            stale = tuple(sorted(a for a, v in state.heap["self"].items()
+                                 if v is not None and any(r.startswith("S:") for r in v.regions)))
+        sheap = ()
+        if selfv is not None and selfv.oid is not None and selfv.oid in state.heap:
+            sheap = tuple(sorted((a, self._sig(v, 1)) for a, v in state.heap[selfv.oid].items()))
+        return (fn.key, tuple(self._sig(a) for a in args),
+                tuple(sorted((k, self._sig(v)) for k, v in kwargs.items())), self._sig(selfv), stale, sheap)
 
     def _havoc(self, args, kwargs, selfv):
         vals = list(args) + list(kwargs.values())
@@ -894,6 +923,13 @@ class Interp:
                     return AV(kinds=["bool"], const=(a in b))
             except Exception:
                 pass
+        if len(rs) == 1 and isinstance(x.ops[0], (ast.Eq, ast.NotEq)) and not l.is_top() and not rs[0].is_top():
+            # values of disjoint builtin kinds are never equal (e.g. the {} sentinel against a string key)
+            basic = {"str", "num", "dict", "list", "tuple", "set", "none", "bool"}
+            lk, rk = l.kinds & basic, rs[0].kinds & basic
+            if lk and rk and l.kinds <= basic and rs[0].kinds <= basic and not (lk & rk) \
+                    and not ({"num", "bool"} >= (lk | rk)):
+                return AV(kinds=["bool"], const=isinstance(x.ops[0], ast.NotEq))
         return BOOL
 
     def e_IfExp(self, x, st):
